@@ -283,6 +283,16 @@ def call_contract(self, fc, recv, args, kwargs, line, label):
         self.wf(res)
     else:
         res = E.none_v()
+    self.last_updates = {}
+    if getattr(fc, "updates", None):
+        # container arguments updated in place: the postcondition speaks about the new value under the parameter's name, old(p) is
+        # the value passed in; the caller's variable is rebound by library_call
+        loc = dict(loc)
+        for pname in fc.updates:
+            nv = fresh_v("u_" + pname, fc.params[pname])
+            self.wf(nv)
+            loc[pname] = nv
+            self.last_updates[pname] = nv
     post_env = E.Env(loc, env.heap, env.alloc, spec=True, old=pre_env, result=res,
                      yielded=res if fc.yields is not None else None)
     inv_post = fc.inv_post if fc.inv_post is not None else (inv_pre or fc.kind == "init")
@@ -359,7 +369,15 @@ def library_call(self, fc, n, env, recv=None):
     if recv is not None:
         args = [recv] + args
     kwargs = {k.arg: k.value for k in n.keywords}
-    return self.call_contract(fc, None, args, kwargs, getattr(n, "lineno", 0), fc.name)
+    r = self.call_contract(fc, None, args, kwargs, getattr(n, "lineno", 0), fc.name)
+    for pname, nv in list(getattr(self, "last_updates", {}).items()):
+        k_ = list(fc.params).index(pname) - (1 if recv is not None else 0)
+        an = n.args[k_] if 0 <= k_ < len(n.args) else kwargs.get(pname)
+        if an is None:
+            raise _eng().Unsupported("updated argument %s of %s not found at the call" % (pname, fc.name))
+        self.assign(an, nv)
+    self.last_updates = {}
+    return r
 
 
 def builtin_call(self, name, n, env):
